@@ -102,7 +102,14 @@ fn extract_host(req: &Request) -> S3Result<Option<String>> {
 }
 
 fn is_socket_addr_or_ip_addr(host: &str) -> bool {
-    host.parse::<SocketAddr>().is_ok() || host.parse::<IpAddr>().is_ok()
+    host.parse::<SocketAddr>().is_ok() || host.parse::<IpAddr>().is_ok() || is_bracketed_ipv6(host)
+}
+
+/// `[::1]`: an IPv6 literal in the Host header without a port
+fn is_bracketed_ipv6(host: &str) -> bool {
+    host.strip_prefix('[')
+        .and_then(|h| h.strip_suffix(']'))
+        .is_some_and(|h| h.parse::<std::net::Ipv6Addr>().is_ok())
 }
 
 fn convert_parse_s3_path_error(err: &ParseS3PathError) -> S3Error {
